@@ -133,6 +133,41 @@ def nested_family(rng: random.Random, n: int | None) -> list:
     return cases
 
 
+def outer_family(rng: random.Random, n: int | None) -> list:
+    """Nested CALLS h(f(args)): the inner set types an int literal differently per variant ((nat) vs (int) vs
+    (float) ...), the outer set's variants expect different argument types, so that earlier outer variants fail on
+    the inner call as a whole before a later one succeeds."""
+    out = []
+    inner_ps = [["nat"], ["int"], ["float"], ["bool"], ["T"], ["nat", "int"], ["int", "nat"], ["nat", "nat"]]
+    for a in ([["lpos"], ["lneg"], ["vnat"], ["lpos", "lpos"], ["lpos", "vint"], ["vint"], ["lfloat"]]):
+        for p1, p2 in itertools.permutations([p for p in inner_ps if len(p) == len(a)], 2):
+            for r1, r2 in itertools.product(("int", "nat", "float", "bool", "T"), repeat=2):
+                for ops in itertools.permutations(("float", "bool", "int", "nat", "T"), 2):
+                    out.append((a, p1, r1, p2, r2, ops))
+    rng.shuffle(out)
+    if n is not None:
+        out = out[:n]
+    cases = []
+    for a, p1, r1, p2, r2, ops in out:
+        vs = [fix_decl({"ps": list(p1), "ret": r1, "decl": False}), fix_decl({"ps": list(p2), "ret": r2, "decl": False})]
+        if rng.random() < 0.3:
+            vs.append(fix_decl({"ps": [rng.choice(TYS) for _ in a], "ret": rng.choice(TYS), "decl": False}))
+        if rng.random() < 0.2:
+            vs = [{"k": "set", "vs": vs[:2]}] + vs[2:] + [fix_decl({"ps": ["T"] * len(a), "ret": "T", "decl": False})]
+        os_ = [fix_outer({"p": p, "ret": rng.choice(("int", "float", "T", "bool")), "decl": False}) for p in ops]
+        if rng.random() < 0.3:
+            os_.append(fix_outer({"p": rng.choice(TYS), "ret": rng.choice(CONC), "decl": False}))
+        omode = "synth" if rng.random() < 0.7 else rng.choice(CONC)
+        cases.append({"vs": vs, "args": list(a), "mode": "synth", "os": os_, "omode": omode})
+    return cases
+
+
+def fix_outer(o: dict) -> dict:
+    if o["ret"] == "T" and o["p"] != "T":
+        o["decl"] = True
+    return o
+
+
 def leaves(case: dict) -> list:
     """[(name, fn variant)] in resolution order: v<k> for plain variants, v<k>_<j> inside a nested set."""
     out = []
@@ -171,7 +206,26 @@ def render(case: dict) -> str:
     L += [f"@guppy.overload({names})", "def f(): ...", ""]
     args = ", ".join(ARG_SRC[a] for a in case["args"])
     ann = "" if case["mode"] == "synth" else f": {case['mode']}"
-    for entry, callee in [("main_o", "f")] + [(f"main_d_{name}", name) for name, _ in leaves(case)]:
-        L += ["@guppy", f"def {entry}({MAIN_PARAMS}) -> None:", f"    r{ann} = {callee}({args})",
-              '    result("r", r)', ""]
+    entries = [("main_d_" + name, f"{name}({args})", ann) for name, _ in leaves(case)]
+    if case.get("os"):
+        # the call is nested in another overloaded call: h(f(args)); w<k> are the outer variants and
+        # main_c_<k>_<leaf> the direct compositions w<k>(<leaf>(args))
+        for k, o in enumerate(case["os"], 1):
+            if o["decl"]:
+                L += ["@guppy.declare", f"def w{k}(q: {o['p']}) -> {o['ret']}: ...", ""]
+                continue
+            L += ["@guppy", f"def w{k}(q: {o['p']}) -> {o['ret']}:", f'    result("w{k}", {k})']
+            if o["p"] != "T":
+                L.append(f'    result("w{k}.q", q)')
+            L.append("    return q" if o["ret"] == "T" else "    return " + RET_SRC[o["ret"]].format(i=500 + k))
+            L.append("")
+        L += [f"@guppy.overload({', '.join(f'w{k}' for k in range(1, len(case['os']) + 1))})", "def h(): ...", ""]
+        oann = "" if case["omode"] == "synth" else f": {case['omode']}"
+        entries.insert(0, ("main_o", f"h(f({args}))", oann))
+        for k in range(1, len(case["os"]) + 1):
+            entries += [(f"main_c_{k}_{name}", f"w{k}({name}({args}))", oann) for name, _ in leaves(case)]
+    else:
+        entries.insert(0, ("main_o", f"f({args})", ann))
+    for entry, call, a in entries:
+        L += ["@guppy", f"def {entry}({MAIN_PARAMS}) -> None:", f"    r{a} = {call}", '    result("r", r)', ""]
     return "\n".join(L)
